@@ -12,7 +12,7 @@ use std::time::Duration;
 
 pub const META: Meta = Meta {
     level: "exploration",
-    rule: "tables = every subset of the crafted key alphabet (distances from the local key: 1 [bucket 0], 2, 3 [bucket 1], 2^255, 2^255+1, 2^255+2^254 [bucket 255]; thorough adds 2^7, 2^7+5 [bucket 7], 2^256-1 [bucket 255]) inserted with alternating connected/disconnected status into a real KBucketsTable (bucket_size 20 and 3 = exactly full bucket 255); local key sha256(peer0) (thorough: also 0 and 2^256-1); targets = local key, every alphabet key, and local ^ d for d in {4,5,2^8,2^8+1,2^256-2,2^256-1,2^255+3,2^255+2} (thorough adds 6,7,2^255+2^100,2^255+2^100+1,2^254, sha256(peer1), sha256(peer2), sha256(peer3)); both closest_keys() and closest(). Non-trivial = distinct (local, bucket_size, subset, target, api) cases with at least 2 stored keys.",
+    rule: "tables = every subset of the crafted key alphabet (distances from the local key: 1 [bucket 0], 2, 3 [bucket 1], 2^255, 2^255+1, 2^255+2^254 [bucket 255]; thorough adds 2^7, 2^7+5 [bucket 7], 2^256-1 [bucket 255]) inserted with alternating connected/disconnected status into a real KBucketsTable (bucket_size 20, and 3 (quick) / 4 (thorough) = bucket 255 exactly full when all its alphabet keys are stored); local key sha256(peer0) (thorough: also 0 and 2^256-1); targets = local key, every alphabet key, and local ^ d for d in {4,5,2^8,2^8+1,2^256-2,2^256-1,2^255+3,2^255+2} (thorough adds 6,7,2^255+2^100,2^255+2^100+1,2^254, sha256(peer1), sha256(peer2), sha256(peer3)); both closest_keys() and closest(). Non-trivial = distinct (local, bucket_size, subset, target, api) cases with at least 2 stored keys.",
     explanation: "Complete enumeration (E3) of subsets x targets; every output is compared with the stored key set (exactly once each) and checked for non-decreasing XOR distance computed independently.",
     assumptions: &["crafted key alphabet with buckets 0, 1, (7,) 255 occupied and >= 3 keys sharing bucket 255 (small-scope)", "no pending entries are involved (C37 covers pending application)"],
 };
@@ -79,7 +79,7 @@ fn extra_targets(thorough: bool, local: &B) -> Vec<(String, B)> {
 
 fn cfgs(thorough: bool) -> Vec<Cfg> {
     let h0 = kx::key_bytes(&kx::peer_keybytes(0));
-    let mut v = vec![Cfg { local_name: "H(peer0)", local: h0, bucket_size: 20 }, Cfg { local_name: "H(peer0)", local: h0, bucket_size: 3 }];
+    let mut v = vec![Cfg { local_name: "H(peer0)", local: h0, bucket_size: 20 }, Cfg { local_name: "H(peer0)", local: h0, bucket_size: if thorough { 4 } else { 3 } }];
     if thorough {
         v.push(Cfg { local_name: "zero", local: kx::ZERO, bucket_size: 20 });
         v.push(Cfg { local_name: "ones", local: kx::MAX, bucket_size: 20 });
